@@ -27,6 +27,12 @@ def make_rows(rng, tps, n, on_grid_frac=0.5):
             t = F(int(t * tps) + rng.randint(0, 40), tps)
             if not finite_decimal(t):
                 t = F(int(t) + rng.randint(0, 3))
+        elif rng.random() < 0.15:
+            # a hair below a tick boundary (what float arithmetic writes for tick k: 0.7999999999999999): still inside tick k-1, must go down to it
+            k = int(t * tps) + rng.randint(1, 40)
+            t = F(k, tps) - F(1, 10 ** rng.choice([11, 13, 15, 16]))
+            if not finite_decimal(t):
+                t = F(int(t) + rng.randint(1, 3)) - F(1, 10 ** 15)
         else:
             t = t + F(rng.randint(1, 99999), 10 ** rng.choice([2, 3, 5]))
         a = dec(t)
@@ -155,11 +161,11 @@ def check_jitter(ctx, drv, rng, td):
     ctx.coverage["distinct_nontrivial"] += 1
 
 
-def check_seeds(ctx, rng, td, start=None, file_seed=None):
+def check_seeds(ctx, rng, td, start=None, file_seed=None, stale=False, n=None):
     """sensitivity-sample: workload i is generated from seed start_seed + i (also for seed 0, and whatever seed the parameter file holds)"""
     import eudoxia.tools as tools
     start = rng.randint(0, 10 ** 5) if start is None else start
-    n = rng.randint(2, 4)
+    n = n or rng.randint(2, 4)
     pf = os.path.join(td, "p.toml")
     open(pf, "w").write("duration = 1\nticks_per_second = 10\n" + (f"random_seed = {file_seed}\n" if file_seed is not None else ""))
     tasks = []
@@ -192,6 +198,12 @@ def check_seeds(ctx, rng, td, start=None, file_seed=None):
         with contextlib.redirect_stdout(io.StringIO()):
             tools.sensitivity_sample_command(pf, os.path.join(td, "out"), n, start_seed=start)
         tools.WorkloadGenerator = FakeGen
+        if stale:
+            # the output directory still holds the workloads of an earlier call (another start seed): they must be generated anew
+            os.makedirs(os.path.join(td, "out"), exist_ok=True)
+            for t in tasks:
+                open(os.path.join(td, "out", f"w{t.workload_index}.csv"), "w").write("pipeline_id,arrival_seconds\n")
+            ctx.sit("seed_wirings_into_a_used_directory")
         for t in tasks:
             tools._sensitivity_task(t)
             sys.stdout, sys.stderr = so, se
@@ -219,6 +231,8 @@ def run(ctx):
             check_seeds(ctx, rng, td, start=0, file_seed=1)
             check_seeds(ctx, rng, td, start=0)
             check_seeds(ctx, rng, td, start=41, file_seed=42)
+            check_seeds(ctx, rng, td, start=11, stale=True)
+            check_seeds(ctx, rng, td, start=7, n=19)          # more samples than any batch or worker count
             for i in range(3 if ctx.quick() else 10):
                 check_seeds(ctx, rng, td)
     finally:
